@@ -26,6 +26,7 @@ fn exec_cfg(stats: bool, counter: bool) -> ExecCfg {
         yield_stats: stats,
         yield_counter: counter,
         max_steps: 4000,
+        clock_step_ms: None,
     }
 }
 
@@ -119,6 +120,15 @@ pub fn stages(prop: &str, tier: &str) -> Vec<Stage> {
                 st.exec.max_steps = 40_000;
                 v.push(st);
             }
+            for (ms, what) in [(1500u64, "1.5 s"), (3_600_000, "1 h")] {
+                let mut st = stage(
+                    &format!("pairs of 1-op threads, books B1-B5, under a clock that advances {what} at every reading"),
+                    programs_1op(2, &books5, &alpha),
+                    Some(2),
+                );
+                st.exec.clock_step_ms = Some(ms);
+                v.push(st);
+            }
             v.push(stage("a reader that rebuilds a level from its snapshot and empties it, against one and two writers, books B1-B5", restore_programs(&books5, &alpha, false), Some(3)));
             v.push(stage("victim programs: one fine-grained operation against 3 call-atomic operations of another thread, B1 B2 B3 B12", programs_victim(&[Book::B1, Book::B2, Book::B3, Book::B12], &alpha, &[COp::Add, COp::Match(2), COp::Match(20), COp::Cancel(1), COp::Amend(1, 2)], 3), None));
         } else {
@@ -138,6 +148,15 @@ pub fn stages(prop: &str, tier: &str) -> Vec<Stage> {
                     Some(2),
                 );
                 st.exec.max_steps = 40_000;
+                v.push(st);
+            }
+            for (ms, what, bound) in [(0u64, "not at all (frozen)", 2u32), (1500, "1.5 s", 3), (3_600_000, "1 h", 2), (400, "0.4 s", 2)] {
+                let mut st = stage(
+                    &format!("pairs of 1-op threads, wide alphabet, ten books, under a clock that advances {what} at every reading"),
+                    programs_1op(2, &books6, &wide),
+                    Some(bound),
+                );
+                st.exec.clock_step_ms = Some(ms);
                 v.push(st);
             }
             v.push(stage("a reader that rebuilds a level from its snapshot and empties it, against one and two writers, ten books", restore_programs(&books6, &wide, true), Some(4)));
@@ -366,6 +385,7 @@ pub fn run_into(report: &mut Report, prop: &str, tier: &str, share: f64) {
             "schedules_with_preemption": r.with_preemption, "max_preemptions_used": r.max_preemptions,
             "statistics_atomics_are_scheduling_points": st.exec.yield_stats,
             "id_counter_is_scheduling_point": st.exec.yield_counter,
+            "virtual_clock_step_ms": st.exec.clock_step_ms,
             "capped": r.capped,
         }));
         if r.diverged > 0 {
@@ -825,7 +845,8 @@ pub fn replay(doc: &Value) -> i32 {
     let cfg = ExecCfg {
         yield_stats: rp["yield_stats"].as_bool().unwrap_or(false),
         yield_counter: rp["yield_counter"].as_bool().unwrap_or(false),
-        max_steps: 4000,
+        max_steps: rp["max_steps"].as_u64().unwrap_or(4000) as u32,
+        clock_step_ms: rp["clock_step_ms"].as_u64(),
     };
     let prop = rp["property"].as_str().unwrap_or("");
     sched::install_hook();
@@ -919,7 +940,7 @@ pub fn validate_scheduler(rounds: usize) -> i32 {
     for (i, p) in programs.iter().enumerate() {
         let cfg = ExploreCfg {
             bound: None,
-            exec: ExecCfg { yield_stats: false, yield_counter: false, max_steps: 4000 },
+            exec: ExecCfg { yield_stats: false, yield_counter: false, max_steps: 4000, clock_step_ms: None },
             wall_cap: Duration::from_secs(120),
             threads,
             want_c14: false,
